@@ -295,7 +295,13 @@ func (o *optimizer) etaReduction() {
 			params := ctx.Binds["params"].(*ast.FieldList).List
 			args := ctx.Binds["args"].(ExprsNode)
 			fun := ctx.Binds["fun"].(ast.Expr)
-			if matched(ctx, params, args) && stable(ctx, fun, false) {
+			// f must have the type of the closure, e.g. not for
+			// func(x int) any { return f(x) }, func(xs ...int) int { return f(xs) }, func(int) int { return f() }
+			sameType := func() bool {
+				lit, f := ctx.TypeOf(c.Node().(ast.Expr)), ctx.TypeOf(fun)
+				return lit != nil && f != nil && types.Identical(lit, f)
+			}
+			if matched(ctx, params, args) && stable(ctx, fun, false) && sameType() {
 				c.Replace(fun)
 			}
 		},
